@@ -4,6 +4,7 @@ package main
 // in-memory variable store offered for tests (efivarfs/testfs) and logs what every read returns.
 
 import (
+	"strings"
 	"bytes"
 	"testing/fstest"
 	"time"
@@ -69,7 +70,12 @@ func storeVar(name string) efivar.Efivar {
 		return efivar.PK
 	case "KEK":
 		return efivar.KEK
+	case "Plain0":
+		// a definition without attributes
+		return efivar.Efivar{Name: name, GUID: util.StringToGUID("8be4df61-93ca-11d2-aa0d-00e098032b8c")}
 	}
+	// "db@global": the ordinary variable db under the global vendor GUID - another variable than the image security database db
+	name = strings.TrimSuffix(name, "@global")
 	return efivar.Efivar{Name: name, GUID: util.StringToGUID("8be4df61-93ca-11d2-aa0d-00e098032b8c"),
 		Attributes: attributes.EFI_VARIABLE_NON_VOLATILE | attributes.EFI_VARIABLE_BOOTSERVICE_ACCESS | attributes.EFI_VARIABLE_RUNTIME_ACCESS}
 }
@@ -108,7 +114,7 @@ func runVarstore(sc M) {
 		for name, v := range p {
 			vr := storeVar(name)
 			content := append(vr.Attributes.Bytes(), storeValue(v.(string))...)
-			files["/sys/firmware/efi/efivars/"+name+"-"+vr.GUID.Format()] = &fstest.MapFile{Data: content}
+			files["/sys/firmware/efi/efivars/"+vr.Name+"-"+vr.GUID.Format()] = &fstest.MapFile{Data: content}
 			pre[name] = v
 		}
 		fs = fs.With(files)
